@@ -1085,69 +1085,77 @@ def rule_r5(chk, prog):
                           nontrivial=True)
     chk.floor('C16.R5', 'fall-through handlers around sort inference', ntry,
               1)
-    # datatypes: constructor -> its own datatype
+    # datatypes: constructor -> its own datatype.  Every store
+    # __datatypes_constructors[c[0]] = V with c ranging over a list L: (V, L)
+    # is (B[1], B[2]) for a single declaration B, or (S[i], B[2][i]) with
+    # S = [s[0] for s in B[1]] for the i-th of several.
     cons = [s for s in ast.walk(f) if isinstance(s, ast.Assign) and unparse(
         s.targets[0]).startswith('__datatypes_constructors[')]
-    if not cons:
-        # registration delegated to a helper: every call site must pass a
-        # datatype together with its own constructor list
-        helpers = {}
-        for q, hf in m.funcs.items():
-            hs = [s_ for s_ in ast.walk(hf) if isinstance(s_, ast.Assign)
-                  and unparse(s_.targets[0]).startswith(
-                      '__datatypes_constructors[')]
-            if hs:
-                helpers[q] = (hf, hs)
-        ncs = 0
-        for q, (hf, hs) in helpers.items():
-            hp = params_of(hf)
-            for s_ in hs:
-                lp = getattr(s_, '_parent', None)
-                while lp is not None and not isinstance(lp, ast.For):
-                    lp = getattr(lp, '_parent', None)
-                okh = unparse(s_.value) in hp and lp is not None and unparse(
-                    lp.iter) in hp and unparse(s_.targets[0]) == \
-                    f'__datatypes_constructors[{unparse(lp.target)}[0]]'
-                chk.check('C16.R5', f'smtlib.{q}', s_, okh,
-                          'helper does not register each constructor of its '
-                          'list parameter under its sort parameter',
-                          loc=m.loc(s_), nontrivial=True)
-                if not okh:
-                    continue
-                si, li = hp.index(unparse(s_.value)), hp.index(
-                    unparse(lp.iter))
-                for c in calls_in(f):
-                    if isinstance(c.func, ast.Name) and c.func.id == q:
-                        ncs += 1
-                        a, b = unparse(c.args[si]), unparse(c.args[li])
-                        okc = (a, b) == ('cmd[1]', 'cmd[2]') or (
-                            a.startswith('sorts[') and b == 'cmd[2]' + a[5:])
-                        chk.check('C16.R5', where, c, okc,
-                                  f'constructors of "{b}" are registered '
-                                  f'under datatype "{a}"', loc=m.loc(c),
-                                  nontrivial=True)
-        chk.floor('C16.R5', 'constructor registration call sites', ncs, 2)
-    else:
-        chk.floor('C16.R5', 'constructor table stores', len(cons), 2)
+    chk.floor('C16.R5', 'constructor table stores', len(cons), 2)
+
+    def nearest_def(name, site):
+        """value of the closest assignment to ``name`` that lexically
+        precedes ``site`` in its own or an enclosing block"""
+        cur = site
+        while cur is not None and cur is not f:
+            par = getattr(cur, '_parent', None)
+            for fld in ('body', 'orelse', 'finalbody'):
+                blk = getattr(par, fld, None)
+                if isinstance(blk, list) and cur in blk:
+                    for st in reversed(blk[:blk.index(cur)]):
+                        if isinstance(st, ast.Assign) and any(
+                                isinstance(t, ast.Name) and t.id == name
+                                for t in st.targets):
+                            return st.value
+            cur = par
+        return None
+
+    def resolve(e, site, depth=0):
+        if isinstance(e, ast.Name) and depth < 4:
+            d = nearest_def(e.id, site)
+            if d is not None:
+                return resolve(d, site, depth + 1)
+        return e
+
     for s in cons:
-        facts = facts_at(f, s.value)
-        single = any(pol and t == "name == 'declare-datatype'"
-                     for (t, pol) in facts)
-        v = unparse(s.value)
-        k = unparse(s.targets[0])
-        if single:
-            ok = v == 'sort' and k == '__datatypes_constructors[constr[0]]'
-        else:
-            ok = v == 'sorts[id]' and k == \
-                '__datatypes_constructors[constr[0]]'
-            # constr ranges over cmd[2][id] with the same id
-            lp = getattr(s, '_parent', None)
-            while lp is not None and not isinstance(lp, ast.For):
-                lp = getattr(lp, '_parent', None)
-            ok = ok and lp is not None and unparse(lp.iter) == 'cmd[2][id]'
-        chk.check('C16.R5', where, f'{k} = {v}', ok,
+        k = s.targets[0]
+        lp = getattr(s, '_parent', None)
+        while lp is not None and not isinstance(lp, ast.For):
+            lp = getattr(lp, '_parent', None)
+        ok = lp is not None and isinstance(lp.target, ast.Name) and unparse(
+            k.slice) == f'{lp.target.id}[0]'
+        why = 'the key is not the name (child 0) of the constructor the ' \
+            'loop ranges over'
+        if ok:
+            V = resolve(s.value, s)
+            L = resolve(lp.iter, lp)
+            vt, lt = unparse(V), unparse(L)
+            ok = False
+            why = (f'constructors of "{lt}" are registered under "{vt}"')
+            if isinstance(V, ast.Subscript) and isinstance(
+                    L, ast.Subscript) and isinstance(V.slice, ast.Constant) \
+                    and isinstance(L.slice, ast.Constant):
+                # single declaration: (B[1], B[2])
+                ok = unparse(V.value) == unparse(L.value) and \
+                    V.slice.value == 1 and L.slice.value == 2
+            elif isinstance(V, ast.Subscript) and isinstance(
+                    L, ast.Subscript) and isinstance(L.value, ast.Subscript):
+                # i-th of several: (S[i], B[2][i])
+                S = resolve(V.value, s)
+                same_i = unparse(V.slice) == unparse(L.slice)
+                b2 = L.value
+                okS = isinstance(S, ast.ListComp) and len(
+                    S.generators) == 1 and isinstance(
+                        S.elt, ast.Subscript) and is_const(S.elt.slice, 0) \
+                    and unparse(S.elt.value) == unparse(
+                        S.generators[0].target) and isinstance(
+                            S.generators[0].iter, ast.Subscript) and \
+                    is_const(S.generators[0].iter.slice, 1) and unparse(
+                        S.generators[0].iter.value) == unparse(b2.value)
+                ok = same_i and okS and is_const(b2.slice, 2)
+        chk.check('C16.R5', where, f'{unparse(k)} = {unparse(s.value)}', ok,
                   'a constructor is not registered under the datatype whose '
-                  'constructor list it comes from', loc=m.loc(s),
+                  f'constructor list it comes from ({why})', loc=m.loc(s),
                   nontrivial=True)
     # loop-variable clobbering in the inference/table code
     nloops = 0
@@ -1177,8 +1185,6 @@ def rule_r5(chk, prog):
                              x.ctx, ast.Store)}
                 clash = outer & names
                 if clash:
-                    # is the outer variable used after the inner binding in
-                    # the same outer iteration?  (conservative: any use)
                     chk.check('C16.R5', f'smtlib.{fname}',
                               f'loop variable {sorted(clash)[0]} rebound '
                               f'inside its own loop', False,
